@@ -68,12 +68,12 @@ class _CH(FinamInterp):
                 return None
             raise AnalysisError(f"stub operation {op} not scripted")
         if isinstance(fv, Sym) and fv.op == "ext" and fv.args[0] == "copy.copy":
-            return Sym("copy", args[0])
+            return dict(args[0]) if isinstance(args[0], dict) else Sym("copy", args[0])
         return super().call_hook(fv, args, kwargs, node, mod)
 
     def ext_call(self, name, args, kwargs, node):
         if name == "copy.copy":
-            return Sym("copy", args[0])
+            return dict(args[0]) if isinstance(args[0], dict) else Sym("copy", args[0])
         return super().ext_call(name, args, kwargs, node)
 
 
@@ -420,3 +420,136 @@ def _check_no_store_before_raise(repo, sink, f, raisers):
 
 def _is_log(s):
     return "logger" in U(s)
+
+
+# =========================================================================== R11r
+class _RuleInfo(Obj):
+    """Stand-in for finam.Info created by the transfer rules."""
+
+
+class _CHR(_CH):
+    def construct(self, cls, args, kwargs, node):
+        if cls.name == "Info":
+            o = _RuleInfo(label="info:new")
+            o.fields.update(time=kwargs.get("time"), grid=kwargs.get("grid"), meta=dict(kwargs.get("meta") or {}))
+            return o
+        if cls.name in ("FromInput", "FromOutput"):
+            o = Obj(cls=cls, label=cls.name)
+            o.fields.update(name=args[0] if args else kwargs.get("name"), fields=(args[1] if len(args) > 1 else kwargs.get("fields")) or [])
+            return o
+        if cls.name == "FromValue":
+            o = Obj(cls=cls, label="FromValue")
+            o.fields.update(field=args[0], value=args[1])
+            return o
+        return super().construct(cls, args, kwargs, node)
+
+    def get_attr(self, obj, attr, node, mod):
+        if isinstance(obj, _RuleInfo) and attr in obj.fields:
+            return obj.fields[attr]
+        return super().get_attr(obj, attr, node, mod)
+
+    def ext_call(self, name, args, kwargs, node):
+        if name == "copy.copy":
+            a = args[0]
+            return dict(a) if isinstance(a, dict) else Sym("copy", a)
+        return super().ext_call(name, args, kwargs, node)
+
+
+def _rule(repo, kind, *a):
+    it = _CHR(repo)
+    return it.construct(repo.cls(kind), list(a), {}, None)
+
+
+def r11r_rules(repo, sink):
+    """Info transfer rules: the derived info is built only when its sources are available,
+    takes the named fields in rule order, and never aliases the source's metadata."""
+    c = repo.cls("ConnectHelper")
+    f = repo.resolve(c, "connect", "method")
+    start = Sym("t0")
+
+    def build(in_rules=None, out_rules=None, ins=None, outs=None, pull=()):
+        it = _CHR(repo)
+        it.order.name(start, "t0", 0)
+        inputs, outputs = {}, {}
+        for n, own in (ins or {}).items():
+            s_ = Slot(label=n)
+            xi = _mk_info("x" + n, start)
+            xi.fields["meta"] = {"units": Sym("u", n), "extra": Sym("e", n)}
+            xi.fields["grid"] = Sym("grid", n)
+            s_.fields.update(_kind="in", _scripts={"exchange_info": [FAIL, OK] if n == "late" else [OK]}, _count={},
+                             info=_mk_info(n, start) if own else None, _xinfo=xi, name=n)
+            inputs[n] = s_
+        for n, has in (outs or {}).items():
+            s_ = Slot(label=n)
+            oi = _mk_info(n, start)
+            oi.fields["meta"] = {"units": Sym("u", n)}
+            s_.fields.update(_kind="out", _scripts={"info": [OK]}, _count={}, _has_info=has, needs_push=False, is_static=False, _info=oi, name=n)
+            outputs[n] = s_
+        me = Obj(cls=c, label="helper")
+        me.fields["logger"] = Logger(label="logger")
+        init = repo.resolve(c, "__init__")
+        it.run(init, ["lg", inputs, outputs], {"pull_data": list(pull), "in_info_rules": in_rules, "out_info_rules": out_rules}, self_obj=me)
+        return it, me, inputs, outputs
+
+    # 1) output info derived from an input that exchanges late, then overridden by a value
+    rules = {"O": [_rule(repo, "FromInput", "late"), _rule(repo, "FromValue", "units", Sym("u_override")), _rule(repo, "FromValue", "time", Sym("t_override"))]}
+    it, me, inputs, outputs = build(out_rules=rules, ins={"late": True}, outs={"O": False})
+    why = None
+    pushed = []
+    try:
+        for k in range(1, 4):
+            it.log = []
+            it.run(f, [start], {}, self_obj=me)
+            pushed += [(k, a[0]) for (_l, op, a) in it.log if op == "push_info"]
+    except Raised as r:
+        why = f"raises {r.name} ({r.exc!r})"
+    src = inputs["late"].fields["_xinfo"]
+    if why is None:
+        if len(pushed) != 1:
+            why = f"derived output info pushed {len(pushed)} time(s) ({[k for k, _ in pushed]}); expected once, after the input's info is exchanged"
+        elif pushed[0][0] < 2:
+            why = "derived output info pushed before its source info was exchanged"
+        else:
+            info = pushed[0][1]
+            meta = info.fields["meta"] if isinstance(info, Obj) else None
+            if not isinstance(info, Obj) or info.fields.get("grid") != Sym("grid", "late") or info.fields.get("time") != Sym("t_override") \
+                    or meta.get("units") != Sym("u_override") or meta.get("extra") != Sym("e", "late"):
+                why = f"derived info has time={info.fields.get('time')!r} grid={info.fields.get('grid')!r} meta={meta!r}; rules apply in order, later ones override"
+            elif src.fields["meta"].get("units") != Sym("u", "late"):
+                why = ("applying a later FromValue rule changed the *source* input's exchanged metadata "
+                       f"(units now {src.fields['meta'].get('units')!r}): the derived info shares the source's meta dict instead of copying it")
+    sink.check(why is None, "R11", "rules:out-from-input", f,
+               ok="derived output info is pushed once, after its source exchanged, from a copy of the source's fields with later rules overriding",
+               bad=why or "")
+    # 2) field-restricted rules from two inputs
+    rules = {"O": [_rule(repo, "FromInput", "a", ["time", "grid"]), _rule(repo, "FromInput", "b", ["units"])]}
+    it, me, inputs, outputs = build(out_rules=rules, ins={"a": True, "b": True}, outs={"O": False})
+    why = None
+    try:
+        it.log = []
+        it.run(f, [start], {}, self_obj=me)
+        it.run(f, [start], {}, self_obj=me)
+        pushed = [a[0] for (_l, op, a) in it.log if op == "push_info"]
+        if len(pushed) != 1:
+            why = f"derived info pushed {len(pushed)} times"
+        else:
+            info = pushed[0]
+            if info.fields.get("grid") != Sym("grid", "a") or info.fields["meta"].get("units") != Sym("u", "b") or "extra" in info.fields["meta"]:
+                why = f"field-restricted rules give grid={info.fields.get('grid')!r} meta={info.fields['meta']!r}; expected grid of a, units of b, nothing else"
+    except Raised as r:
+        why = f"raises {r.name} ({r.exc!r})"
+    sink.check(why is None, "R11", "rules:restricted-fields", f, ok="only the named fields are transferred, each from its own source", bad=why or "")
+    # 3) input info derived from an output
+    rules = {"I": [_rule(repo, "FromOutput", "O")]}
+    it, me, inputs, outputs = build(in_rules=rules, ins={"I": False}, outs={"O": True})
+    why = None
+    try:
+        it.log = []
+        for _k in range(3):
+            it.run(f, [start], {}, self_obj=me)
+        ex = [a for (_l, op, a) in it.log if op == "exchange_info"]
+        if len(ex) != 1 or not ex[0] or not isinstance(ex[0][0], Obj) or ex[0][0].fields["meta"].get("units") != Sym("u", "O"):
+            why = f"input info derived from the output is exchanged as {ex!r}"
+    except Raised as r:
+        why = f"raises {r.name} ({r.exc!r})"
+    sink.check(why is None, "R11", "rules:in-from-output", f, ok="input request derived from the output's exchanged info, exchanged once", bad=why or "")
